@@ -1,5 +1,5 @@
 (* Dispatch entries (name -> sx wrapper) for the Windows shell models (C20). *)
-From BFG Require Import Base.Chars Base.Sx Shell.WinQuote Shell.Msvcrt.
+From BFG Require Import Base.Chars Base.Sx Shell.WinQuote Shell.Msvcrt Shell.WinSplit.
 From Coq Require Import String.
 Local Open Scope N_scope.
 
@@ -32,6 +32,10 @@ Definition table : list (string * (sx -> sx)) := [
   ("win.join", fun a => sx_str (join (us_of (nth_sx 0 a)) (un_strs (nth_sx 1 a))));
   ("win.tokenize", fun a => sx_list sx_wtoken (tokenize 0 (un_str (nth_sx 0 a))));
   ("win.split", fun a => sx_list sx_str (split (un_str (nth_sx 0 a))));
+  ("win.join_sargs", fun a => sx_opt sx_str (join_sargs (us_of (nth_sx 0 a)) (map un_sarg (un_list (nth_sx 1 a)))));
+  ("win.split_dom", fun a => let line := un_str (nth_sx 0 a) in
+      L [sx_bool (split_dom line); sx_bool (no_tail_bs line); sx_bool (no_dd_pair line)]);
+  ("win.strip_tbs", fun a => sx_str (strip_tbs (un_str (nth_sx 0 a))));
   ("win.cmd_wrap", fun a => sx_str (cmd_wrap (un_str (nth_sx 0 a))));
   ("win.cmd_s_strip", fun a => sx_opt sx_str (cmd_s_strip (un_str (nth_sx 0 a))));
   ("msvcrt.parse", fun a => sx_list sx_str (msvcrt_parse (un_dd (nth_sx 0 a)) (un_str (nth_sx 1 a))))
